@@ -1,0 +1,15 @@
+//go:build verif
+
+package pogreb
+
+// Verification hooks (build tag "verif" only). verifYield marks the points at
+// which maintenance code holds no database lock, so that a replay harness can
+// place another operation exactly there.
+
+var verifYieldFn func(point int)
+
+func verifYield(point int) {
+	if verifYieldFn != nil {
+		verifYieldFn(point)
+	}
+}
